@@ -392,3 +392,93 @@ func (w *world) tLockProbe(inc *incM, fh []byte, leaf *countLeaf, probes []lockP
 	}
 	return t
 }
+
+// ---------------------------------------------------------------- a superseded current state ID
+
+// tOpenReopenThen: PUTROOTFH; OPEN; SAVEFH; PUTROOTFH; OPEN of the same
+// file by the same open-owner; RESTOREFH; an operation that uses the
+// current state ID. The second OPEN supersedes the state ID of the first
+// (same "other", next seqid); RESTOREFH brings back the file handle
+// together with the state ID as SAVEFH stored it, i.e. the superseded
+// one. RFC 8881 sections 8.2.3 and 16.2.3.1.2, as quoted by
+// getOpenOwnerFileByStateID(): only CLOSE and OPEN_DOWNGRADE insist on
+// the latest seqid of the current state ID (NFS4ERR_OLD_STATEID, nothing
+// changes); every other use is honoured. Seven operations: it only fits
+// sessions that allow eight per COMPOUND (others refuse it as a whole,
+// which the engine predicts).
+func (w *world) tOpenReopenThen(inc *incM, name, owner string, acc, acc2 uint32, then string) *tmpl {
+	t := &tmpl{kind: "open_reopen_then_" + then, stateOp: true, data: map[string]any{}}
+	open := func(a uint32) nfsv4.NfsArgop4 {
+		return &nfsv4.NfsArgop4_OP_OPEN{Opopen: nfsv4.Open4args{
+			ShareAccess: accToWire(a),
+			ShareDeny:   nfsv4.OPEN4_SHARE_DENY_NONE,
+			Owner:       nfsv4.OpenOwner4{Clientid: inc.clientID, Owner: []byte(owner)},
+			Openhow:     openHow("nocreate"),
+			Claim:       &nfsv4.OpenClaim4_CLAIM_NULL{File: name},
+		}}
+	}
+	bit := accR
+	var last nfsv4.NfsArgop4
+	switch then {
+	case "read":
+		last = &nfsv4.NfsArgop4_OP_READ{Opread: nfsv4.Read4args{Stateid: currentSID, Offset: 0, Count: 2}}
+	case "write":
+		bit = accW
+		last = &nfsv4.NfsArgop4_OP_WRITE{Opwrite: nfsv4.Write4args{Stateid: currentSID, Offset: 0, Stable: nfsv4.FILE_SYNC4, Data: []byte{0x34}}}
+	case "close":
+		last = &nfsv4.NfsArgop4_OP_CLOSE{Opclose: nfsv4.Close4args{OpenStateid: currentSID}}
+	case "downgrade":
+		last = &nfsv4.NfsArgop4_OP_OPEN_DOWNGRADE{OpopenDowngrade: nfsv4.OpenDowngrade4args{OpenStateid: currentSID, ShareAccess: accToWire(acc), ShareDeny: nfsv4.OPEN4_SHARE_DENY_NONE}}
+	default:
+		panic("nfs41sim: tOpenReopenThen " + then)
+	}
+	t.desc = fmt.Sprintf("OPEN(CLAIM_NULL %q, owner %q, %s, nocreate); SAVEFH; PUTROOTFH; OPEN(the same, %s); RESTOREFH; %s(current state ID, superseded)", name, owner, accString(acc), accString(acc2), strings.ToUpper(then))
+	t.ops = []nfsv4.NfsArgop4{
+		&nfsv4.NfsArgop4_OP_PUTROOTFH{}, open(acc), &nfsv4.NfsArgop4_OP_SAVEFH{},
+		&nfsv4.NfsArgop4_OP_PUTROOTFH{}, open(acc2), &nfsv4.NfsArgop4_OP_RESTOREFH{},
+		last,
+	}
+	t.predict = func(c *call) {
+		leaf := w.lookupTruth(name)
+		t.data["leaf"] = leaf
+		if leaf == nil {
+			t.expect = []sts{one(nfsv4.NFS4_OK), one(nfsv4.NFS4ERR_NOENT)}
+			return
+		}
+		st := nfsv4.NFS4_OK
+		if then == "close" || then == "downgrade" {
+			st = nfsv4.NFS4ERR_OLD_STATEID
+			w.label("superseded_current_stateid_refused:" + then)
+		} else {
+			access := acc | acc2
+			if o := inc.opens[owner+"|"+string(leaf.handleCopy())]; o != nil {
+				access |= o.access
+			}
+			if access&bit == 0 {
+				st = nfsv4.NFS4ERR_OPENMODE
+			}
+			w.label("superseded_current_stateid_honoured:" + then)
+		}
+		ok := one(nfsv4.NFS4_OK)
+		t.expect = []sts{ok, ok, ok, ok, ok, ok, one(st)}
+	}
+	t.onDone = func(c *call, res []nfsv4.NfsResop4) {
+		leaf, _ := t.data["leaf"].(*countLeaf)
+		if leaf == nil {
+			return
+		}
+		fh := leaf.handleCopy()
+		for _, x := range []struct {
+			idx int
+			acc uint32
+		}{{1, acc}, {4, acc2}} {
+			if len(res) <= x.idx || resStatus(res[x.idx]) != nfsv4.NFS4_OK {
+				return
+			}
+			ok := res[x.idx].(*nfsv4.NfsResop4_OP_OPEN).Opopen.(*nfsv4.Open4res_NFS4_OK).Resok4
+			w.learnFH(fh, leaf)
+			w.modelOpen(c, owner, leaf, fh, x.acc, ok.Stateid)
+		}
+	}
+	return t
+}
